@@ -178,9 +178,9 @@ def run(prop, tier, seed):
     exes = build_seq_drivers("dbg")
     d = trace_dir(prop)
     if tier == "quick":
-        runs_per_inst, histories, ops = 3, 7, 120
+        runs_per_inst, histories, ops = 3, 8, 120
     else:
-        runs_per_inst, histories, ops = 40, 7, 300
+        runs_per_inst, histories, ops = 40, 8, 300
     jobs = []
     for (db, key), exe in exes.items():
         for r in range(runs_per_inst):
